@@ -1,4 +1,5 @@
 import AcraModel.Token.Concurrent
+import AcraModel.Token.DecodeLemmas
 /-!
 # The store invariant and its preservation by every atomic step (C10)
 
@@ -111,11 +112,11 @@ theorem decodeAs_gen {ty : TokenType} {n : Nat} {d : Draws} {tok : Bytes} (h : g
   | int32 =>
     simp only [genToken, Out.ok.injEq] at h
     subst h
-    simp [decodeAs, randomBytes_length, List.take_of_length_le]
+    exact decodeAs_exact .int32 _ ⟨fun _ => randomBytes_length 4 d, (by intro e; cases e)⟩
   | int64 =>
     simp only [genToken, Out.ok.injEq] at h
     subst h
-    simp [decodeAs, randomBytes_length, List.take_of_length_le]
+    exact decodeAs_exact .int64 _ ⟨(by intro e; cases e), fun _ => randomBytes_length 8 d⟩
   | str => rfl
   | bytes => rfl
   | email => rfl
